@@ -54,6 +54,14 @@ def builders(labels, C, seed):
     B.append(("PseudoLabel(logits)", lambda d: KDPseudoLabelWrapper(d, pseudo_labels=logits.clone()), C))
     for th in (0.3, 0.6):
         B.append((f"PseudoLabel(threshold={th})", lambda d, th=th: KDPseudoLabelWrapper(d, pseudo_labels=logits.clone(), threshold=th), C))
+    # confidence exactly on the threshold: uniform rows / two tied winners
+    tied = logits.clone()
+    tied[0] = 0.
+    if C >= 2:
+        tied[1] = float("-inf")
+        tied[1, :2] = 1.
+    B.append((f"PseudoLabel(threshold=1/{C}, tied rows)", lambda d: KDPseudoLabelWrapper(d, pseudo_labels=tied.clone(), threshold=1.0 / C), C))
+    B.append(("PseudoLabel(threshold=0.5, tied rows)", lambda d: KDPseudoLabelWrapper(d, pseudo_labels=tied.clone(), threshold=0.5), C))
     for mode in ("random", "randperm"):
         B.append((f"RandomClass({mode})", lambda d, mode=mode: KDRandomClassWrapper(d, mode=mode, seed=seed), C))
     for sp in (0.0, 0.4, 1.0):
@@ -112,8 +120,29 @@ def check_encodings(labels, C):
     return None
 
 
+def check_smoothing_after_class_change():
+    """the smoothing wrapper reads the class count of the dataset it wraps on every access"""
+    from kappadata.wrappers.sample_wrappers.label_smoothing_wrapper import LabelSmoothingWrapper
+    from kappadata.wrappers.sample_wrappers.kd_random_class_wrapper import KDRandomClassWrapper
+    inner = KDRandomClassWrapper(_ds([0, 1, 2, 1], 5), mode="random", seed=3)
+    w = LabelSmoothingWrapper(inner, smoothing=0.1)
+    for C in (5, 10, 3):
+        inner.num_classes = C
+        for i in range(4):
+            v = w.getitem_class(i)
+            l = inner.getitem_class(i)
+            if v.shape != (C,) or (v < 0).any() or abs(v.sum().item() - 1) > 1e-5 or (v.max() - v[l]).abs() > 1e-7:
+                return {"what": "smoothed encoding is not non-negative / does not sum to one / loses the argmax after the class count changed",
+                        "classes": C, "vector": v.tolist()}
+    return None
+
+
 def search(limit, seed):
-    n = 0
+    n = 1
+    r = check_smoothing_after_class_change()
+    if r is not None:
+        r["input"] = {"scenario": "LabelSmoothing over KDRandomClassWrapper, num_classes 5 -> 10 -> 3"}
+        return r, n
     layouts = [([0, 1], 2), ([1, 0, 1, 2, 2, 0], 3), ([3, 1, 0, 2, 2, 1, 0, 3], 4), ([0, 5, 2, 3, 1, 4, 4, 0], 6), ([0, -1, 1, -1, 1], 2)]
     for labels, C in layouts:
         for s in (seed, seed + 1):
